@@ -523,7 +523,7 @@ class TT():
                 raise IncompatibleTypes(
                     'Addition between a tensor and a matrix is not defined.')
         else:
-            InvalidArguments('Second term is incompatible.')
+            raise InvalidArguments('Second term is incompatible.')
 
         return result
 
@@ -560,7 +560,7 @@ class TT():
         Returns:
             torchtt.TT: the result.
         """
-        if np.isscalar(other) or (tn.is_tensor(other) and other.shape == []):
+        if np.isscalar(other) or (tn.is_tensor(other) and tn.numel(other) == 1):
             # the second term is a scalar
             cores = []
 
@@ -653,7 +653,7 @@ class TT():
                 raise IncompatibleTypes(
                     'Addition between a tensor and a matrix is not defined.')
         else:
-            InvalidArguments(
+            raise InvalidArguments(
                 'Second term is incompatible (must be either torchtt.TT or int or float or torch.tensor with 1 element).')
 
         return result
